@@ -148,7 +148,7 @@ PROPERTIES = {
     "C11": {
         "level": "proof",
         "must_fail_quick": False,     # the vacuity twins of these units run under the property that owns each unit (and in C11 thorough)
-        "verus_units": ["arith_widen", "arith128", "widediv", "nofrac", "fracops", "round@*", "transc", "log2inner", "sqrtacc", "powiacc", "leaves", "decbin", "decbin128", "cmp@*", "fromfixed@*", "fromfloat@*", "wrapping", "traitfwd@*", "intconv", "floatglue", "trig", "cmpfloat@*", "cmpfloatrev@*", "cmpint@*", "cmpintrev@*", "bitops@*", "remint@*", "diveuclid@*"],
+        "verus_units": ["arith_widen", "arith128", "widediv", "nofrac", "fracops", "round@*", "transc", "log2inner", "sqrtacc", "powiacc", "leaves", "decbin", "decbin128", "parsetop", "cmp@*", "fromfixed@*", "fromfloat@*", "wrapping", "traitfwd@*", "intconv", "floatglue", "trig", "cmpfloat@*", "cmpfloatrev@*", "cmpint@*", "cmpintrev@*", "bitops@*", "remint@*", "diveuclid@*"],
         "kani": [{"harness": h, "classes": ["panic"]} for h in
                  _mods("arith8", ["i4f4", "i0f8", "u4f4", "u0f8"], FORMS) + ["arith8::abs_forms_i8"] + TFH
                  + ["float::check_to_f32", "float::check_to_f64", "float::check_kind_f32", "float::check_kind_f64"]
@@ -163,16 +163,26 @@ PROPERTIES = {
     },
     "C08": {
         "level": "other",
-        "verus_units": ["leaves", "decbin", "decbin128"],
+        "verus_units": ["leaves", "decbin", "decbin128", "parsetop"],
         "kani": ["parse::parse_u8_hex", "parse::parse_u8_oct", "parse::parse_u8_bin", "parse::parse_i8_hex", "parse::parse_error_kinds",
                  "parse::parse_u8_dec", "parse::parse_i8_dec"],
         "kani_thorough": [{"harness": "parse::parse_u8_dec_long", "timeout": 9000}, {"harness": "parse::parse_i8_dec_long", "timeout": 9000}],
-        "explanation": "BOUNDED: the real from_str_u8 / from_str_i8 (run-time radix and layout through the hook wrappers) on EVERY byte string "
-                       "of at most 9 bytes (radix 2, 8, 16) resp. 6 bytes quick / 7 bytes thorough (radix 10), all nine 8-bit layouts symbolic, "
-                       "against the exactly rounded value of the literal (ties to even), the overflow flag, the wrapped value and the error "
+        "explanation": "TWO LAYERS.  (1) Verus, all inputs, every width: the width-specific functions of the parser - `dec_to_bin` of u8..u64 and of u128 "
+                       "(decimal fraction numerator -> nbits binary places, correctly rounded ties-to-even in Round::Nearest; units decbin, decbin128), `mul_hi_lo`, "
+                       "`div_tie` - and the whole per-width recombination layer of `impl_from_str!` (unit parsetop: from_str_iN / from_str_uN / get_int_fracN / "
+                       "get_intN / get_fracN for N = 8..128 incl. their half-width delegation, `frac_is_half`): for every (int_nbits, frac_nbits) with int + frac = N "
+                       "the result is wrap(+-A) with the overflow flag !fits(+-A), where A = ival * 2^f + fround + [f == 0, ival odd, fraction exactly one half] "
+                       "is the literal's correctly rounded magnitude expressed through the value functions of the digit strings.  (2) BOUNDED, Kani: the tokeniser "
+                       "and the generic digit loops (iterator adapters) - which layer (1) assumes through those value functions - run for real in from_str_u8 / "
+                       "from_str_i8 on EVERY byte string of at most 9 bytes (radix 2, 8, 16) resp. 6 bytes quick / 7 bytes thorough (radix 10), all nine 8-bit "
+                       "layouts symbolic, against the exactly rounded value of the literal (ties to even), the overflow flag, the wrapped value and the error "
                        "classes of a grammar written independently of the tokeniser; complete within the bound, loops closed by unwinding assertions",
-        "bounded_parts": ["string length <= 9 (6 / 7 for decimal); 8-bit types only; wider types share parse_bounds and the generic digit loops "
-                          "but their dec_to_bin / get_int / get_frac instantiations are not covered"],
+        "bounded_parts": ["tokeniser (parse_bounds) and the generic digit loops (bin/oct/hex/dec_str_int_to_bin, *_str_frac_to_bin, dec_str_frac_to_bin's digit comparison, parse_is_short): "
+                          "decided by Kani on the 8-bit instantiation only, string length <= 9 (6 / 7 for decimal); in the Verus layer they are assumed contracts over "
+                          "uninterpreted value functions (ival, fround, parse_spec)"],
+        "assumptions": ["unit parsetop: the leaf contracts of the digit loops and of parse_bounds are assumed (external_body, hand-declared signatures generic over the result type); "
+                        "axiom ax_digit_values (ival >= 0, 0 <= fround <= 2^nbits, empty strings are zero, a trimmed non-empty integer part is >= 1, a fraction of exactly one half "
+                        "rounds to 0 at zero fractional bits); IntHelper::MSB is a literal tied to the source text by //@require_source"],
     },
     "C09": {
         "level": "other",
